@@ -380,6 +380,7 @@ class Lane(object):
             return Sym(self.t)
         m = ir.uf('np.max', [self.whole()], self.t.sort)       # a function of the whole array, >= every element
         State.ctx.assume(self._guard(ir.le(self.t, m)))
+        _minmax_facts(self.whole(), self.t.sort)
         return Sym(m)
 
     def min(self, axis=None):
@@ -387,6 +388,7 @@ class Lane(object):
             return Sym(self.t)
         m = ir.uf('np.min', [self.whole()], self.t.sort)
         State.ctx.assume(self._guard(ir.le(m, self.t)))
+        _minmax_facts(self.whole(), self.t.sort)
         return Sym(m)
 
     def sum(self, axis=None):
@@ -396,7 +398,12 @@ class Lane(object):
         return Sym(ir.uf('np.mean', [self.whole()]))
 
     def std(self, axis=None, ddof=0):
-        return Sym(ir.uf('np.std', [self.whole(), to_term(ddof)]))
+        w = self.whole()
+        t = ir.uf('np.std', [w, to_term(ddof)])
+        # mathematical facts: std >= 0, and > 0 iff the array is not constant
+        State.ctx.assume(ir.ge(t, 0))
+        State.ctx.assume(ir.eq(ir.gt(t, 0), ir.gt(ir.uf('n_unique', [w], 'I'), 1)))
+        return Sym(t)
 
     def dot(self, other):
         if isinstance(other, Lane):
@@ -474,6 +481,15 @@ class Lane(object):
             self.t = to_term(val)
             return
         raise paths.Unsupported('array store %r' % (key,))
+
+
+def _minmax_facts(w, sort):
+    """min <= max, with equality iff the array is constant (mathematical fact)"""
+    if sort not in ('R', 'I'):
+        return
+    lo, hi = ir.uf('np.min', [w], sort), ir.uf('np.max', [w], sort)
+    State.ctx.assume(ir.le(lo, hi))
+    State.ctx.assume(ir.eq(ir.lt(lo, hi), ir.gt(ir.uf('n_unique', [w], 'I'), 1)))
 
 
 def assume_all_lanes(cond):
